@@ -18,7 +18,7 @@ pub mod c10;
 pub mod c09;
 #[cfg(feature = "c11")]
 pub mod c11;
-#[cfg(any(feature = "c02", feature = "c07", feature = "c03", feature = "c04", feature = "c05", feature = "c06", feature = "c08", feature = "c01", feature = "c13", feature = "c14", feature = "c15", feature = "c16"))]
+#[cfg(feature = "c02")]
 pub mod c02;
 #[cfg(feature = "c07")]
 pub mod c07;
@@ -30,3 +30,5 @@ pub mod c05;
 pub mod c04;
 #[cfg(feature = "c16")]
 pub mod c16;
+#[cfg(feature = "c06")]
+pub mod c06;
